@@ -1,6 +1,917 @@
-//! C03 — stub (to be implemented).
+//! C03 — multithreaded BGZF I/O equals single-threaded I/O under every schedule.
+//!
+//! The rayon pool is process-global, so the driver runs this binary once per pool size
+//! (`RAYON_NUM_THREADS=n`, parameter `pool=n`); every case runs in a child process.
+//!
+//! Case kinds
+//!   W  writer: a write/flush history is run on the single-threaded `Writer` and on the
+//!      `MultithreadedWriter` while hook H1 delays individual compress tasks according to a delay
+//!      plan; the sink bytes must be identical; `finish()` must return the sink.
+//!   R  reader: an operation history (read / read_exact / fill_buf+consume / seek) is run on the
+//!      single-threaded `Reader` and on the `MultithreadedReader` with delayed inflate tasks; bytes,
+//!      results and virtual positions after every operation must be identical.
+//!   WF writer fault: the sink fails at call k (every k enumerated): some call up to and including
+//!      `finish()` must return an error.
+//!   RF reader fault: block j is corrupted / the file is truncated: the bytes delivered before the
+//!      first error must be exactly the blocks preceding the bad one, and some call up to and
+//!      including `finish()` must return an error.
+//! The H1 event log yields what was actually observed: completion orders, inversions, tasks in
+//! flight. A deadlock monitor samples /proc/self/task while a case is overdue.
+
+use std::{
+    collections::{HashMap, VecDeque},
+    io::{BufRead, Cursor, Read, Write},
+    sync::{
+        Arc, Mutex, OnceLock,
+        atomic::{AtomicI64, AtomicU64, Ordering},
+    },
+    time::{Duration, Instant},
+};
+
+use noodles_bgzf::{self as bgzf, verif::Site};
+use serde_json::{Value, json};
+use vcore::{
+    CaseOut, Ctx, Report, Rng,
+    adv::{Accept, FaultMode, FaultyWrite, is_injected},
+    bgzf as obgzf, guard, payload,
+    rng::fnv1a,
+    run_cases,
+};
+
+// ------------------------------------------------------------------------------------------------
+// H1 hook state: delay plan + event log
+// ------------------------------------------------------------------------------------------------
+
+#[derive(Clone, Copy, Debug)]
+struct Event {
+    site: Site,
+    /// index of the block in submission / file order (usize::MAX = unknown block)
+    block: usize,
+    /// log index of the start event of the same task (tasks run start..end on one thread)
+    start_seq: usize,
+}
+
+thread_local! {
+    static CURRENT_START: std::cell::Cell<usize> = const { std::cell::Cell::new(usize::MAX) };
+}
+
+#[derive(Default)]
+struct HookState {
+    /// content hash -> block indices carrying that content, in submission order
+    by_hash_start: HashMap<u64, VecDeque<usize>>,
+    by_hash_end: HashMap<u64, VecDeque<usize>>,
+    /// (delay before the task body, delay after it) per block index, in microseconds
+    delays: Vec<(u64, u64)>,
+    log: Vec<Event>,
+}
+
+fn state() -> &'static Mutex<HookState> {
+    static S: OnceLock<Mutex<HookState>> = OnceLock::new();
+    S.get_or_init(|| Mutex::new(HookState::default()))
+}
+
+static PENDING_DELAYS: AtomicI64 = AtomicI64::new(0);
+static HOOK_HITS: AtomicU64 = AtomicU64::new(0);
+
+fn hook(site: Site, data: &[u8]) {
+    HOOK_HITS.fetch_add(1, Ordering::Relaxed);
+    let h = fnv1a(data);
+    let is_start = matches!(site, Site::DeflateTaskStart | Site::InflateTaskStart);
+    let is_end = matches!(site, Site::DeflateTaskEnd | Site::InflateTaskEnd);
+    if !is_start && !is_end {
+        return;
+    }
+    if is_start {
+        let (block, delay) = {
+            let mut s = state().lock().unwrap();
+            let block = rotate(s.by_hash_start.get_mut(&h));
+            let delay = s.delays.get(block).map(|d| d.0).unwrap_or(0);
+            let seq = s.log.len();
+            CURRENT_START.with(|c| c.set(seq));
+            s.log.push(Event { site, block, start_seq: seq });
+            (block, delay)
+        };
+        let _ = block;
+        if delay > 0 {
+            PENDING_DELAYS.fetch_add(1, Ordering::SeqCst);
+            std::thread::sleep(Duration::from_micros(delay));
+            PENDING_DELAYS.fetch_sub(1, Ordering::SeqCst);
+        }
+    } else {
+        // the end event is logged AFTER the delay so that the log order is the real hand-over order
+        let (block, delay) = {
+            let mut s = state().lock().unwrap();
+            let block = rotate(s.by_hash_end.get_mut(&h));
+            let delay = s.delays.get(block).map(|d| d.1).unwrap_or(0);
+            (block, delay)
+        };
+        if delay > 0 {
+            PENDING_DELAYS.fetch_add(1, Ordering::SeqCst);
+            std::thread::sleep(Duration::from_micros(delay));
+            PENDING_DELAYS.fetch_sub(1, Ordering::SeqCst);
+        }
+        let start_seq = CURRENT_START.with(|c| c.replace(usize::MAX));
+        state().lock().unwrap().log.push(Event { site, block, start_seq });
+    }
+}
+
+/// Identical blocks are interchangeable: hand their indices out round-robin (a reader may also
+/// inflate the same frame again after a seek).
+fn rotate(q: Option<&mut VecDeque<usize>>) -> usize {
+    match q {
+        Some(q) => match q.pop_front() {
+            Some(b) => {
+                q.push_back(b);
+                b
+            }
+            None => usize::MAX,
+        },
+        None => usize::MAX,
+    }
+}
+
+fn arm(blocks: &[Vec<u8>], delays: Vec<(u64, u64)>) {
+    let mut s = state().lock().unwrap();
+    s.by_hash_start.clear();
+    s.by_hash_end.clear();
+    for (i, b) in blocks.iter().enumerate() {
+        let h = fnv1a(b);
+        s.by_hash_start.entry(h).or_default().push_back(i);
+        s.by_hash_end.entry(h).or_default().push_back(i);
+    }
+    s.delays = delays;
+    s.log.clear();
+}
+
+fn disarm() -> Vec<Event> {
+    let mut s = state().lock().unwrap();
+    s.by_hash_start.clear();
+    s.by_hash_end.clear();
+    s.delays.clear();
+    std::mem::take(&mut s.log)
+}
+
+#[derive(Default, Debug)]
+struct OrderStats {
+    tasks: u64,
+    /// adjacent pairs completing out of submission order
+    inversions: u64,
+    max_displacement: u64,
+    max_in_flight: u64,
+    order_hash: u64,
+    unknown_blocks: u64,
+}
+
+fn analyse(log: &[Event]) -> OrderStats {
+    let mut st = OrderStats::default();
+    let mut in_flight = 0i64;
+    // tasks in completion order, identified by the log index of their start event: an inversion
+    // is a task that completes before a task that was started earlier
+    let mut ends = Vec::new();
+    let mut blocks_in_end_order = Vec::new();
+    for e in log {
+        match e.site {
+            Site::DeflateTaskStart | Site::InflateTaskStart => {
+                in_flight += 1;
+                st.max_in_flight = st.max_in_flight.max(in_flight as u64);
+            }
+            Site::DeflateTaskEnd | Site::InflateTaskEnd => {
+                in_flight -= 1;
+                if e.block == usize::MAX {
+                    st.unknown_blocks += 1;
+                }
+                if e.start_seq != usize::MAX {
+                    ends.push(e.start_seq);
+                    blocks_in_end_order.push(e.block);
+                }
+            }
+            _ => {}
+        }
+    }
+    st.tasks = ends.len() as u64;
+    for w in ends.windows(2) {
+        if w[0] > w[1] {
+            st.inversions += 1;
+        }
+    }
+    let mut sorted = ends.clone();
+    sorted.sort_unstable();
+    for (rank, s) in ends.iter().enumerate() {
+        let started_rank = sorted.binary_search(s).unwrap();
+        st.max_displacement = st.max_displacement.max((rank as i64 - started_rank as i64).unsigned_abs());
+    }
+    let bytes: Vec<u8> = blocks_in_end_order.iter().flat_map(|b| (*b as u32).to_le_bytes()).collect();
+    st.order_hash = fnv1a(&bytes);
+    st
+}
+
+// ------------------------------------------------------------------------------------------------
+// cases
+// ------------------------------------------------------------------------------------------------
+
+#[derive(Clone, Debug)]
+struct Case {
+    kind: &'static str,
+    class: String,
+    len: usize,
+    split: String,
+    flush_every: usize,
+    level: u8,
+    plan: &'static str,
+    pseed: u64,
+    /// WF: failing sink call; RF: corrupted block index
+    fault_at: usize,
+    /// WF: 0 sticky / 1 transient; RF: corruption kind
+    fault_kind: usize,
+    slow_sink: bool,
+    /// R: file built by the independent builder with odd layouts instead of the noodles writer
+    odd_layout: bool,
+}
+
+fn case_json(c: &Case) -> Value {
+    json!({"kind": c.kind, "class": c.class, "len": c.len, "split": c.split, "flush_every": c.flush_every,
+           "level": c.level, "plan": c.plan, "pseed": c.pseed, "fault_at": c.fault_at, "fault_kind": c.fault_kind,
+           "slow_sink": c.slow_sink, "odd_layout": c.odd_layout})
+}
+
+const PLANS: &[&str] = &["none", "reverse", "random", "one_slow", "alternating", "end_heavy"];
+
+fn make_delays(plan: &str, n: usize, pool: usize, rng: &mut Rng) -> Vec<(u64, u64)> {
+    let w = pool.max(2);
+    let unit = 400u64; // microseconds
+    (0..n)
+        .map(|i| match plan {
+            "none" => (0, 0),
+            // within each window the first block is the slowest: completion order reverses
+            "reverse" => (((w - i % w) as u64) * unit, 0),
+            "random" => (rng.below(6) * unit, rng.below(3) * unit),
+            "one_slow" => (if i == n / 3 { 15_000 } else { 0 }, 0),
+            "alternating" => (if i % 2 == 0 { 3 * unit } else { 0 }, 0),
+            "end_heavy" => (0, ((w - i % w) as u64) * unit),
+            _ => unreachable!(),
+        })
+        .collect()
+}
+
+#[derive(Clone, Default)]
+struct SharedSink {
+    buf: Arc<Mutex<Vec<u8>>>,
+    slow: bool,
+    n: Arc<AtomicU64>,
+}
+
+impl Write for SharedSink {
+    fn write(&mut self, b: &[u8]) -> std::io::Result<usize> {
+        if self.slow && self.n.fetch_add(1, Ordering::Relaxed) % 23 == 0 {
+            std::thread::sleep(Duration::from_micros(300));
+        }
+        self.buf.lock().unwrap().extend_from_slice(b);
+        Ok(b.len())
+    }
+    fn flush(&mut self) -> std::io::Result<()> {
+        Ok(())
+    }
+}
+
+/// Runs a write/flush history on any writer; returns the first error.
+fn drive_writer<W: Write>(w: &mut W, data: &[u8], pieces: &[usize], flush_every: usize) -> std::io::Result<()> {
+    let mut off = 0;
+    for (i, &n) in pieces.iter().enumerate() {
+        w.write_all(&data[off..off + n])?;
+        off += n;
+        if flush_every > 0 && (i + 1) % flush_every == 0 {
+            w.flush()?;
+        }
+    }
+    Ok(())
+}
+
+fn level(l: u8) -> bgzf::io::writer::CompressionLevel {
+    bgzf::io::writer::CompressionLevel::new(l).unwrap()
+}
+
+fn st_write(data: &[u8], pieces: &[usize], flush_every: usize, l: u8) -> Vec<u8> {
+    let mut w = bgzf::io::writer::Builder::default().set_compression_level(level(l)).build_from_writer(Vec::new());
+    drive_writer(&mut w, data, pieces, flush_every).expect("Vec sink");
+    w.finish().expect("Vec sink")
+}
+
+#[derive(Clone, Debug)]
+enum Op {
+    Read(usize),
+    ReadExact(usize),
+    FillConsume(usize),
+    Seek(u64),
+    ReadToEnd,
+}
+
+/// Transcript element: (op, result kind, bytes hash, byte count, virtual position after the op)
+type Obs = (String, String, u64, usize, u64);
+
+trait RdOps: Read + BufRead {
+    fn vpos(&self) -> u64;
+    fn seek_v(&mut self, v: u64) -> std::io::Result<u64>;
+}
+
+impl RdOps for bgzf::io::Reader<Cursor<Vec<u8>>> {
+    fn vpos(&self) -> u64 {
+        u64::from(self.virtual_position())
+    }
+    fn seek_v(&mut self, v: u64) -> std::io::Result<u64> {
+        self.seek(bgzf::VirtualPosition::from(v)).map(u64::from)
+    }
+}
+
+impl RdOps for bgzf::io::MultithreadedReader<Cursor<Vec<u8>>> {
+    fn vpos(&self) -> u64 {
+        u64::from(self.virtual_position())
+    }
+    fn seek_v(&mut self, v: u64) -> std::io::Result<u64> {
+        use bgzf::io::Seek;
+        self.seek_to_virtual_position(bgzf::VirtualPosition::from(v)).map(u64::from)
+    }
+}
+
+/// Runs the operation history; stops after the first error (nothing is required of calls made
+/// after an error was reported).
+fn drive_reader<R: RdOps>(r: &mut R, ops: &[Op]) -> Vec<Obs> {
+    let mut out = Vec::new();
+    let mut buf = Vec::new();
+    for op in ops {
+        let (name, res): (String, std::io::Result<Vec<u8>>) = match op {
+            Op::Read(n) => {
+                buf.clear();
+                buf.resize(*n, 0);
+                (format!("read({n})"), r.read(&mut buf).map(|k| buf[..k].to_vec()))
+            }
+            Op::ReadExact(n) => {
+                buf.clear();
+                buf.resize(*n, 0);
+                (format!("read_exact({n})"), r.read_exact(&mut buf).map(|_| buf.clone()))
+            }
+            Op::FillConsume(n) => {
+                let res = r.fill_buf().map(|b| b[..b.len().min(*n)].to_vec());
+                if let Ok(b) = &res {
+                    r.consume(b.len());
+                }
+                (format!("fill_buf+consume({n})"), res)
+            }
+            Op::Seek(v) => (format!("seek({v:#x})"), r.seek_v(*v).map(|v| v.to_le_bytes().to_vec())),
+            Op::ReadToEnd => {
+                let mut v = Vec::new();
+                ("read_to_end".to_string(), r.read_to_end(&mut v).map(|_| v))
+            }
+        };
+        let failed = res.is_err();
+        match res {
+            Ok(b) => out.push((name, "ok".to_string(), fnv1a(&b), b.len(), r.vpos())),
+            // read_exact/read_to_end may have consumed data before failing; the position after an
+            // error is not compared
+            Err(e) => out.push((name, format!("err:{:?}", e.kind()), 0, 0, 0)),
+        }
+        if failed {
+            break;
+        }
+    }
+    out
+}
+
+fn gen_ops(rng: &mut Rng, walk: &obgzf::Walk, n_ops: usize) -> Vec<Op> {
+    // seek targets: canonical positions inside non-empty blocks, plus the end-of-data position of
+    // files that end with an EOF marker (offset of the marker, 0)
+    let mut targets = Vec::new();
+    for m in &walk.members {
+        if !m.data.is_empty() {
+            targets.push((m.offset, m.data.len()));
+        }
+    }
+    let mut ops = Vec::new();
+    for _ in 0..n_ops {
+        let op = match rng.below(12) {
+            0..=3 => Op::Read(*rng.pick(&[0usize, 1, 2, 7, 100, 4000, 65535, 65536, 70000, 131072])),
+            4..=5 => Op::ReadExact(*rng.pick(&[0usize, 1, 3, 50, 3000, 65536, 100000])),
+            6..=7 => Op::FillConsume(*rng.pick(&[0usize, 1, 10, 5000, 70000])),
+            8..=10 if !targets.is_empty() => {
+                let (off, len) = *rng.pick(&targets);
+                let u = match rng.below(4) {
+                    0 => 0,
+                    1 => len - 1,
+                    _ => rng.usize_below(len),
+                };
+                Op::Seek(obgzf::vpos(off, u as u16))
+            }
+            8..=10 => Op::Read(10),
+            _ => Op::ReadToEnd,
+        };
+        ops.push(op);
+    }
+    ops.push(Op::ReadToEnd);
+    if walk.ends_with_eof_marker() && rng.bool() {
+        // seek to the end-of-data position, then read: must be EOF on both readers
+        let eof = walk.members.last().unwrap().offset;
+        ops.push(Op::Seek(obgzf::vpos(eof, 0)));
+        ops.push(Op::Read(100));
+    }
+    if !targets.is_empty() {
+        let (off, len) = *rng.pick(&targets);
+        ops.push(Op::Seek(obgzf::vpos(off, rng.usize_below(len) as u16)));
+        ops.push(Op::ReadToEnd);
+    }
+    ops
+}
+
+fn pool_size(ctx: &Ctx) -> usize {
+    ctx.param("pool").and_then(|s| s.parse().ok()).unwrap_or(2)
+}
+
+fn gen_cases(ctx: &Ctx) -> Vec<Case> {
+    let pool = pool_size(ctx);
+    let mut rng = Rng::new(ctx.seed, 0xC03, pool as u64);
+    let mut cases = Vec::new();
+    if ctx.param("tiny").is_some() {
+        // Miri-sized: a few blocks of a few dozen bytes, every kind once or twice
+        let n = ctx.budget("tiny", 2, 2) as usize;
+        for h in 0..n {
+            for (kind, plan) in [("W", "random"), ("R", "reverse"), ("WF", "none"), ("RF", "random")] {
+                cases.push(Case {
+                    kind, class: "text".into(), len: 90 + 40 * h, split: "small".into(), flush_every: 1, level: 1, plan,
+                    pseed: ctx.seed + h as u64, fault_at: 3 + 2 * h, fault_kind: h % 2, slow_sink: false, odd_layout: false,
+                });
+            }
+        }
+        return cases;
+    }
+    let n_hist = ctx.budget("histories", 36, 300) as usize;
+    let plans: Vec<&'static str> = if ctx.quick() { vec!["reverse", "random", "one_slow", "end_heavy"] } else { PLANS.to_vec() };
+    for h in 0..n_hist {
+        let class = rng.pick(&["text", "dna", "random", "runs", "skewed", "qualities", "random_with_repeats"]).to_string();
+        // 3..40 blocks
+        let len = match h % 4 {
+            0 => rng.urange(3, 12) * 65495 + rng.urange(0, 3000),
+            1 => rng.urange(100_000, 900_000),
+            2 => rng.urange(200, 60_000),
+            _ => rng.urange(300_000, 2_500_000),
+        };
+        let split = rng.pick(&["all", "mixed", "blocks", "halves"]).to_string();
+        let flush_every = if len < 100_000 { *rng.pick(&[1usize, 2, 3]) } else { *rng.pick(&[0usize, 0, 3, 7]) };
+        let split = if len < 100_000 { "small".to_string() } else { split };
+        let len = if split == "small" { len.min(3000) } else { len };
+        let pseed = ctx.seed.wrapping_mul(1_000_003).wrapping_add((pool * 10_000 + h) as u64);
+        for &plan in &plans {
+            for kind in ["W", "R"] {
+                cases.push(Case {
+                    kind,
+                    class: class.clone(),
+                    len,
+                    split: split.clone(),
+                    flush_every,
+                    level: rng.below(10) as u8,
+                    plan,
+                    pseed,
+                    fault_at: 0,
+                    fault_kind: 0,
+                    slow_sink: rng.chance(1, 4),
+                    odd_layout: kind == "R" && h % 3 == 2,
+                });
+            }
+        }
+    }
+    // fault enumeration on short histories: every sink call index / every block index
+    let n_fault_hist = ctx.budget("fault_histories", 3, 20) as usize;
+    for h in 0..n_fault_hist {
+        let len = [3 * 65495 + 17, 150_000, 70_000, 5 * 65495][h % 4];
+        let pseed = ctx.seed.wrapping_mul(77).wrapping_add((pool * 1000 + h) as u64);
+        // the number of sink calls / blocks is only known after a healthy run: enumerate up to a
+        // bound, cases beyond the real count report themselves as `out_of_range` (trivial)
+        for k in 0..(if ctx.quick() { 70 } else { 140 }) {
+            cases.push(Case {
+                kind: "WF", class: "text".into(), len, split: "mixed".into(), flush_every: 0, level: 1,
+                plan: ["none", "random", "reverse"][k % 3], pseed, fault_at: k, fault_kind: k % 2, slow_sink: false, odd_layout: false,
+            });
+        }
+        for j in 0..8 {
+            for fk in 0..4 {
+                cases.push(Case {
+                    kind: "RF", class: "text".into(), len, split: "all".into(), flush_every: 0, level: 1,
+                    plan: ["none", "random", "reverse"][(j + fk) % 3], pseed, fault_at: j, fault_kind: fk, slow_sink: false, odd_layout: false,
+                });
+            }
+        }
+    }
+    cases
+}
+
+fn fold_stats(o: &mut CaseOut, pool: usize, what: &str, st: &OrderStats) {
+    o.count(&format!("{what}_tasks[pool={pool}]"), st.tasks);
+    o.count(&format!("{what}_inversions[pool={pool}]"), st.inversions);
+    o.max(&format!("max_{what}_in_flight[pool={pool}]"), st.max_in_flight);
+    o.max(&format!("max_{what}_displacement[pool={pool}]"), st.max_displacement);
+    o.count("hook_events_for_unknown_blocks", st.unknown_blocks);
+    if st.inversions > 0 {
+        o.fps.push(fnv1a(format!("{what}|{pool}|{}", st.order_hash).as_bytes()));
+        o.count(&format!("{what}_cases_with_inversions[pool={pool}]"), 1);
+    }
+}
+
+fn run_case_inner(ctx: &Ctx, c: &Case) -> CaseOut {
+    let pool = pool_size(ctx);
+    let mut o = CaseOut::new();
+    let mut rng = Rng::new(c.pseed, 3, 0);
+    let data = payload::make(&c.class, c.len, &mut rng);
+    let pieces = payload::split_pattern(&c.split, c.len, &mut rng);
+    o.count(&format!("cases[{}]", c.kind), 1);
+
+    match c.kind {
+        "W" => {
+            let st_bytes = st_write(&data, &pieces, c.flush_every, c.level);
+            let walk = obgzf::walk(&st_bytes).expect("C01 territory: ST output must be walkable");
+            let blocks: Vec<Vec<u8>> = walk.members.iter().filter(|m| !m.is_eof_marker).map(|m| m.data.clone()).collect();
+            let delays = make_delays(c.plan, blocks.len(), pool, &mut rng);
+            arm(&blocks, delays);
+            let sink = SharedSink { slow: c.slow_sink, ..Default::default() };
+            let res = guard::catch(|| -> Result<(), String> {
+                let mut w = bgzf::io::multithreaded_writer::Builder::default()
+                    .set_compression_level(level(c.level))
+                    .build_from_writer(sink.clone());
+                drive_writer(&mut w, &data, &pieces, c.flush_every).map_err(|e| format!("write/flush returned {e} on a healthy sink"))?;
+                let _sink_back: SharedSink = w.finish().map_err(|e| format!("finish() returned {e} on a healthy sink"))?;
+                Ok(())
+            });
+            let log = disarm();
+            let st = analyse(&log);
+            fold_stats(&mut o, pool, "deflate", &st);
+            o.count("blocks_submitted", blocks.len() as u64);
+            match res {
+                Err(p) => o.violation(format!("mt-writer-panic:{}", p.sig), format!("multithreaded writer panicked: {}", p.message)),
+                Ok(Err(e)) => o.violation("mt-writer-error-on-healthy-sink", e),
+                Ok(Ok(())) => {
+                    let mt_bytes = sink.buf.lock().unwrap().clone();
+                    if mt_bytes != st_bytes {
+                        // diagnose: same members in another order / missing / duplicated / other
+                        let class = match obgzf::walk(&mt_bytes) {
+                            Err(_) => "malformed".to_string(),
+                            Ok(w2) => {
+                                let a: Vec<u64> = walk.members.iter().map(|m| fnv1a(&m.data)).collect();
+                                let b: Vec<u64> = w2.members.iter().map(|m| fnv1a(&m.data)).collect();
+                                let (mut sa, mut sb) = (a.clone(), b.clone());
+                                sa.sort_unstable();
+                                sb.sort_unstable();
+                                if sa == sb && a != b {
+                                    "blocks-reordered".into()
+                                } else if b.len() < a.len() {
+                                    "blocks-missing".into()
+                                } else if b.len() > a.len() {
+                                    "blocks-extra".into()
+                                } else if w2.concat() == walk.concat() {
+                                    "same-payload-different-bytes".into()
+                                } else {
+                                    "content-differs".into()
+                                }
+                            }
+                        };
+                        o.violation(
+                            format!("mt-writer-output-ne-st-output:{class}"),
+                            format!("multithreaded writer emitted {} bytes, single-threaded writer {} bytes for the same history ({} blocks, completion inversions observed: {})",
+                                    mt_bytes.len(), st_bytes.len(), blocks.len(), st.inversions),
+                        );
+                    }
+                    if st.tasks != blocks.len() as u64 && st.unknown_blocks == 0 {
+                        o.violation("mt-writer-task-count", format!("{} compress tasks completed for {} submitted blocks", st.tasks, blocks.len()));
+                    }
+                }
+            }
+            o.fp = fnv1a(format!("W|{pool}|{}|{}|{}|{}", c.plan, blocks.len().min(50), c.flush_every, c.slow_sink).as_bytes());
+        }
+        "R" => {
+            let file = if c.odd_layout {
+                // layouts the noodles writer never emits: empty members mid-file, 1-byte and full
+                // 64 KiB members, stored members; always with a final EOF marker
+                let mut blocks = Vec::new();
+                let mut off = 0;
+                // incompressible data does not fit into a member at 64 KiB
+                let big = if matches!(c.class.as_str(), "text" | "dna" | "runs") { 65536 } else { 65000 };
+                while off < data.len() {
+                    let n = match rng.below(6) {
+                        0 => 0,
+                        1 => 1,
+                        2 => big,
+                        3 => big - 1,
+                        _ => rng.urange(1, 40_000),
+                    }
+                    .min(data.len() - off);
+                    blocks.push(data[off..off + n].to_vec());
+                    off += n;
+                    if blocks.len() > 60 {
+                        blocks.push(data[off..(off + 60_000).min(data.len())].to_vec());
+                        break;
+                    }
+                }
+                let enc = if rng.bool() { obgzf::Enc::Stored } else { obgzf::Enc::Deflate(3) };
+                obgzf::build_file(&blocks, enc, 1 + rng.usize_below(2))
+            } else {
+                st_write(&data, &pieces, c.flush_every, c.level)
+            };
+            let walk = obgzf::walk(&file).expect("walkable");
+            let frames: Vec<Vec<u8>> = walk.members.iter().map(|m| file[m.offset as usize..(m.offset + m.size) as usize].to_vec()).collect();
+            let ops = gen_ops(&mut rng, &walk, if ctx.quick() { 25 } else { 60 });
+            let mut st_reader = bgzf::io::Reader::new(Cursor::new(file.clone()));
+            let expected = match guard::catch(|| drive_reader(&mut st_reader, &ops)) {
+                Ok(t) => t,
+                Err(p) => {
+                    o.inconclusive.push(format!("single-threaded reader panicked (C02/C15 territory): {}", p.sig));
+                    return o;
+                }
+            };
+            let delays = make_delays(c.plan, frames.len(), pool, &mut rng);
+            arm(&frames, delays);
+            let res = guard::catch(|| {
+                let mut r = bgzf::io::MultithreadedReader::new(Cursor::new(file.clone()));
+                let t = drive_reader(&mut r, &ops);
+                let fin = r.finish().map(|_| ()).map_err(|e| e.kind());
+                (t, fin)
+            });
+            let log = disarm();
+            let st = analyse(&log);
+            fold_stats(&mut o, pool, "inflate", &st);
+            o.count("reader_ops", ops.len() as u64);
+            o.count("reader_seeks", ops.iter().filter(|x| matches!(x, Op::Seek(_))).count() as u64);
+            match res {
+                Err(p) => o.violation(format!("mt-reader-panic:{}", p.sig), format!("multithreaded reader panicked: {}", p.message)),
+                Ok((got, fin)) => {
+                    if let Some(i) = (0..expected.len().max(got.len())).find(|&i| expected.get(i) != got.get(i)) {
+                        let class = match (expected.get(i), got.get(i)) {
+                            (Some(e), Some(g)) if e.1 != g.1 => "result-kind",
+                            (Some(e), Some(g)) if e.3 != g.3 => "byte-count",
+                            (Some(e), Some(g)) if e.2 != g.2 => "bytes",
+                            (Some(e), Some(g)) if e.4 != g.4 => "virtual-position",
+                            _ => "transcript-length",
+                        };
+                        let after_seek = ops[..=i.min(ops.len() - 1)].iter().any(|x| matches!(x, Op::Seek(_)));
+                        o.violation(
+                            format!("mt-reader-ne-st-reader:{class}:{}", if after_seek { "after-seek" } else { "sequential" }),
+                            format!("operation #{i} {:?}: single-threaded reader observed {:?}, multithreaded reader {:?} (inflate inversions observed: {})",
+                                    ops.get(i), expected.get(i), got.get(i), st.inversions),
+                        );
+                    }
+                    if let Err(k) = fin {
+                        o.violation("mt-reader-finish-error-on-valid-file", format!("finish() returned {k:?} on a valid file"));
+                    }
+                }
+            }
+            o.fp = fnv1a(format!("R|{pool}|{}|{}|{}|{}", c.plan, frames.len().min(50), c.odd_layout, ops.len()).as_bytes());
+        }
+        "WF" => {
+            // healthy run first: number of sink calls
+            let healthy = FaultyWrite::healthy();
+            {
+                let mut w = bgzf::io::multithreaded_writer::Builder::default().set_compression_level(level(c.level)).build_from_writer(healthy.clone());
+                drive_writer(&mut w, &data, &pieces, c.flush_every).expect("healthy");
+                w.finish().expect("healthy");
+            }
+            let n_calls = healthy.log.lock().unwrap().calls;
+            if c.fault_at >= n_calls {
+                o.count("fault_positions_out_of_range", 1);
+                return o;
+            }
+            let st_bytes = healthy.bytes();
+            let walk = obgzf::walk(&st_bytes).expect("walkable");
+            let blocks: Vec<Vec<u8>> = walk.members.iter().filter(|m| !m.is_eof_marker).map(|m| m.data.clone()).collect();
+            arm(&blocks, make_delays(c.plan, blocks.len(), pool, &mut rng));
+            let mode = if c.fault_kind == 0 { FaultMode::Sticky(c.fault_at) } else { FaultMode::Transient(c.fault_at) };
+            let kind = vcore::adv::ERROR_KINDS[c.fault_at % vcore::adv::ERROR_KINDS.len()];
+            let sink = FaultyWrite::new(mode, kind, Accept::All);
+            let res = guard::catch(|| -> Result<(), std::io::Error> {
+                let mut w = bgzf::io::multithreaded_writer::Builder::default().set_compression_level(level(c.level)).build_from_writer(sink.clone());
+                // after the first Err no further call is made; the writer is dropped
+                drive_writer(&mut w, &data, &pieces, c.flush_every)?;
+                w.finish().map(|_| ())
+            });
+            let _ = disarm();
+            o.count("sink_fault_positions_enumerated", 1);
+            o.max("max_sink_calls_of_a_history", n_calls as u64);
+            let errors_returned = sink.log.lock().unwrap().errors_returned;
+            match res {
+                Err(p) => o.violation(format!("mt-writer-panic-on-sink-failure:{}", p.sig), format!("sink call {} failed ({kind:?}); the writer panicked: {}", c.fault_at, p.message)),
+                Ok(Ok(())) => {
+                    if errors_returned > 0 {
+                        o.violation(
+                            "mt-writer-swallowed-sink-error",
+                            format!("sink call {} of {n_calls} failed with {kind:?} ({} error(s) returned to noodles) but write/flush/finish all returned Ok", c.fault_at, errors_returned),
+                        );
+                    } else {
+                        o.inconclusive.push("fault position was never reached although the healthy run reached it".into());
+                    }
+                }
+                Ok(Err(e)) => {
+                    o.count("sink_faults_surfaced", 1);
+                    if !is_injected(&e) && errors_returned > 0 {
+                        o.count("sink_faults_surfaced_as_other_error", 1);
+                    }
+                }
+            }
+            o.fp = fnv1a(format!("WF|{pool}|{}|{}", c.fault_at.min(200), c.fault_kind).as_bytes());
+        }
+        "RF" => {
+            let file = st_write(&data, &pieces, c.flush_every, c.level);
+            let walk = obgzf::walk(&file).expect("walkable");
+            let data_members: Vec<&obgzf::Member> = walk.members.iter().filter(|m| !m.is_eof_marker).collect();
+            if c.fault_at >= data_members.len() {
+                o.count("fault_positions_out_of_range", 1);
+                return o;
+            }
+            let m = data_members[c.fault_at];
+            let (off, size) = (m.offset as usize, m.size as usize);
+            let mut bad = file.clone();
+            let what = match c.fault_kind {
+                0 => {
+                    bad[off + 18 + (size - 26) / 2] ^= 0x55; // CDATA byte
+                    "cdata-byte-flipped"
+                }
+                1 => {
+                    bad[off + size - 8] ^= 0x01; // CRC32
+                    "crc-flipped"
+                }
+                2 => {
+                    bad[off + size - 4] ^= 0x01; // ISIZE
+                    "isize-flipped"
+                }
+                _ => {
+                    // the file ends inside the body of the block (a cut inside the 18-byte header is
+                    // a clean end of file for the frame reader, which C13 allows)
+                    bad.truncate(off + 18 + (size - 18) / 2);
+                    "truncated-inside-block"
+                }
+            };
+            let prefix_len: usize = data_members[..c.fault_at].iter().map(|m| m.data.len()).sum();
+            let frames: Vec<Vec<u8>> = walk.members.iter().map(|m| file[m.offset as usize..(m.offset + m.size) as usize].to_vec()).collect();
+            arm(&frames, make_delays(c.plan, frames.len(), pool, &mut rng));
+            let res = guard::catch(|| {
+                let mut r = bgzf::io::MultithreadedReader::new(Cursor::new(bad.clone()));
+                let mut got = Vec::new();
+                let mut buf = vec![0u8; 10_000];
+                let mut err = None;
+                loop {
+                    match r.read(&mut buf) {
+                        Ok(0) => break,
+                        Ok(n) => got.extend_from_slice(&buf[..n]),
+                        Err(e) => {
+                            err = Some(e.kind());
+                            break;
+                        }
+                    }
+                }
+                let fin = r.finish().map(|_| ()).map_err(|e| e.kind());
+                (got, err, fin)
+            });
+            let _ = disarm();
+            o.count("corrupt_block_positions_enumerated", 1);
+            match res {
+                Err(p) => o.violation(format!("mt-reader-panic-on-corrupt-block:{}", p.sig), format!("{what} in block {}: the reader panicked: {}", c.fault_at, p.message)),
+                Ok((got, err, fin)) => {
+                    let expected = &walk.concat()[..prefix_len];
+                    if got.len() < prefix_len || &got[..prefix_len] != expected {
+                        o.violation(format!("mt-reader-lost-data-before-corrupt-block:{what}"), format!("{what} in block {}: {} bytes delivered before the error, the {} preceding bytes were expected", c.fault_at, got.len(), prefix_len));
+                    } else if got.len() > prefix_len {
+                        o.violation(format!("mt-reader-delivered-data-from-or-after-corrupt-block:{what}"), format!("{what} in block {}: {} bytes delivered, only the {} bytes of the preceding blocks are intact", c.fault_at, got.len(), prefix_len));
+                    }
+                    if err.is_none() && fin.is_ok() {
+                        o.violation(format!("mt-reader-swallowed-corrupt-block:{what}"), format!("{what} in block {}: every read and finish() returned Ok", c.fault_at));
+                    } else {
+                        o.count(if err.is_some() { "corruption_surfaced_in_read" } else { "corruption_surfaced_in_finish" }, 1);
+                    }
+                }
+            }
+            o.fp = fnv1a(format!("RF|{pool}|{}|{}", c.fault_at, c.fault_kind).as_bytes());
+        }
+        _ => unreachable!(),
+    }
+    o
+}
+
+// ------------------------------------------------------------------------------------------------
+// deadlock monitor: the case runs on its own thread; while it is overdue, /proc/self/task is
+// sampled. All threads asleep with unchanged CPU time over several samples and no hook delay
+// pending => deadlock => violation (the child exits afterwards, its threads are stuck).
+// ------------------------------------------------------------------------------------------------
+
+fn thread_states() -> Vec<(String, char, u64)> {
+    let mut v = Vec::new();
+    if let Ok(rd) = std::fs::read_dir("/proc/self/task") {
+        for e in rd.flatten() {
+            if let Ok(s) = std::fs::read_to_string(e.path().join("stat")) {
+                // pid (comm) state ... utime(14) stime(15)
+                if let Some(rp) = s.rfind(')') {
+                    let f: Vec<&str> = s[rp + 2..].split(' ').collect();
+                    let state = f.first().and_then(|x| x.chars().next()).unwrap_or('?');
+                    let cpu = f.get(11).and_then(|x| x.parse::<u64>().ok()).unwrap_or(0) + f.get(12).and_then(|x| x.parse::<u64>().ok()).unwrap_or(0);
+                    v.push((e.file_name().to_string_lossy().to_string(), state, cpu));
+                }
+            }
+        }
+    }
+    v.sort();
+    v
+}
+
+fn run_case(ctx: &Ctx, c: &Case) -> CaseOut {
+    if cfg!(miri) || ctx.param("inproc").is_some() {
+        // the interpreter / sanitizer run has its own deadlock detection; no /proc sampling
+        return run_case_inner(ctx, c);
+    }
+    let (tx, rx) = std::sync::mpsc::channel();
+    let ctx2 = ctx.clone();
+    let c2 = c.clone();
+    let me = std::thread::Builder::new().name("case".into()).spawn(move || {
+        let o = run_case_inner(&ctx2, &c2);
+        let _ = tx.send(o);
+    });
+    let _ = me;
+    let t0 = Instant::now();
+    let mut quiet = 0;
+    let mut last: Vec<(String, char, u64)> = Vec::new();
+    loop {
+        match rx.recv_timeout(Duration::from_millis(500)) {
+            Ok(o) => return o,
+            Err(std::sync::mpsc::RecvTimeoutError::Disconnected) => {
+                // the case thread died without sending: a panic outside guard::catch
+                let mut o = CaseOut::new();
+                o.inconclusive.push("case thread ended without a result".into());
+                return o;
+            }
+            Err(std::sync::mpsc::RecvTimeoutError::Timeout) => {}
+        }
+        if t0.elapsed() < Duration::from_secs(8) {
+            continue;
+        }
+        let now = thread_states();
+        let all_asleep = now.iter().all(|t| t.1 == 'S');
+        let me_running = now.iter().filter(|t| t.1 == 'R').count();
+        let unchanged = now.len() == last.len() && now.iter().zip(&last).all(|(a, b)| a.0 == b.0 && a.2 == b.2);
+        // the sampling thread itself is 'R' while reading /proc: tolerate exactly one runnable thread
+        if (all_asleep || me_running <= 1) && unchanged && PENDING_DELAYS.load(Ordering::SeqCst) == 0 {
+            quiet += 1;
+        } else {
+            quiet = 0;
+        }
+        last = now;
+        if quiet >= 6 {
+            let mut o = CaseOut::new();
+            o.violation(
+                format!("deadlock:{}", c.kind),
+                format!("no thread made progress for {}s (all threads asleep, CPU time unchanged over 6 samples, no hook delay pending); threads: {:?}", t0.elapsed().as_secs(), last.iter().map(|t| format!("{}:{}", t.0, t.1)).collect::<Vec<_>>()),
+            );
+            vcore::child::EXIT_AFTER_CASE.store(true, Ordering::SeqCst);
+            return o;
+        }
+        if t0.elapsed() > Duration::from_secs(300) {
+            let mut o = CaseOut::new();
+            o.inconclusive.push("case overdue for 300 s without meeting the deadlock criterion".into());
+            vcore::child::EXIT_AFTER_CASE.store(true, Ordering::SeqCst);
+            return o;
+        }
+    }
+}
 
 fn main() {
-    eprintln!("c03: not implemented");
-    std::process::exit(2);
+    let ctx = Ctx::from_args();
+    let ctx = vcore::cases::replay_request(&ctx).map(|r| r.1).unwrap_or(ctx);
+    let pool = pool_size(&ctx);
+    // the pool is process-global: fix its size first thing (children get the same arguments)
+    rayon::ThreadPoolBuilder::new().num_threads(pool).build_global().expect("global rayon pool");
+    assert_eq!(rayon::current_num_threads(), pool);
+    bgzf::verif::set_hook(hook);
+    let mut rep = Report::new(
+        "one run per rayon pool size; case = (kind W writer / R reader / WF sink failing at call k / RF block j corrupt, \
+         payload class, length, write split, flush policy, level, H1 delay plan, slow sink, layout); oracle = the \
+         single-threaded writer/reader on the same history; schedules come from delaying individual block tasks through \
+         hook H1, the realised completion orders are read from the event log; distinct = distinct (kind, pool, plan, \
+         block-count, shape) tuples plus every distinct completion order with at least one inversion; non-trivial = the \
+         history produced at least 3 blocks or a fault position inside the history",
+    );
+    rep.assumptions.push("completion order is observed at the hook sites (task start/end), i.e. where the real code can be pre-empted; interleavings inside channel operations are only explored by the Miri stage".into());
+    rep.assumptions.push("sampled permutations, not every permutation of the window".into());
+    let cases = gen_cases(&ctx);
+    let f = |i: u64| -> CaseOut { run_case(&ctx, &cases[i as usize]) };
+    // many cases sleep most of the time: oversubscribe the cores
+    let mut ctx_run = ctx.clone();
+    ctx_run.jobs = (ctx.jobs * 2).min(48);
+    run_cases(&ctx_run, &mut rep, cases.len() as u64, 240.0, &f, &|i| case_json(&cases[i as usize]));
+    if ctx.replay.is_none() && ctx.param("tiny").is_none() {
+        let counters = rep.counters.clone();
+        let get = |k: &str| counters.get(k).copied().unwrap_or(0);
+        let d_inv = get(&format!("deflate_inversions[pool={pool}]"));
+        let i_inv = get(&format!("inflate_inversions[pool={pool}]"));
+        rep.extra.insert("pool".into(), json!(pool));
+        if pool >= 2 {
+            // a run that never saw blocks finish out of order has not exercised the property
+            rep.floor(&format!("deflate completion inversions at pool size {pool}"), d_inv, 1);
+            rep.floor(&format!("inflate completion inversions at pool size {pool}"), i_inv, 1);
+        } else if d_inv + i_inv > 0 {
+            rep.inconclusive.push(format!("pool size 1 showed {d_inv}+{i_inv} completion inversions: event attribution is unreliable in this run"));
+        }
+        rep.floor("hook events", get(&format!("deflate_tasks[pool={pool}]")) + get(&format!("inflate_tasks[pool={pool}]")), 100);
+        rep.floor("sink fault positions", get("sink_fault_positions_enumerated"), 20);
+        rep.floor("corrupt block positions", get("corrupt_block_positions_enumerated"), 8);
+    }
+    rep.finish(&ctx);
 }
